@@ -27,7 +27,7 @@ pub fn run(args: &Args) {
                 let bytes = bytes_of(&v["bytes"]);
                 res.case(fnv(&bytes), true);
                 let small = json!({"bytes": v["bytes"]});
-                let h = match decode_message_header(&mut bytes.as_slice()) {
+                let h = match if dribbled(&bytes) { decode_message_header(&mut Dribble::new(&bytes)) } else { decode_message_header(&mut bytes.as_slice()) } {
                     Ok(h) => h,
                     Err(e) => { res.mismatch("violation", "C10/decode/error", format!("{e:?}"), small); continue; }
                 };
